@@ -98,6 +98,7 @@ type Task struct {
 	Panicked bool
 	w        *waiter
 	Yields   int // number of Yield calls seen (all sites)
+	liveIdx  int
 }
 
 // Event is one entry of the run's event log.
@@ -166,6 +167,7 @@ func (h *timerHeap) Pop() any {
 const (
 	fairBound    = 3000
 	maxTimeJumps = 64
+	maxLiveTasks = 2000
 )
 
 // Stats counts what happened in a run.
@@ -319,6 +321,7 @@ func (s *Sched) newTask(fn func(), parent int) *Task {
 		t.prio = 1000 + s.ch.Intn(1000)*16 + t.ID
 	}
 	s.tasks = append(s.tasks, t)
+	t.liveIdx = len(s.live)
 	s.live = append(s.live, t)
 	s.Stats.Tasks++
 	go func() {
@@ -346,11 +349,13 @@ func (s *Sched) taskEnd(t *Task) {
 		s.Emit("task-panic", fmt.Sprint(r))
 	}
 	t.state = done
-	for i, x := range s.live {
-		if x == t {
-			s.live = append(s.live[:i], s.live[i+1:]...)
-			break
-		}
+	// O(1) removal (runs with very many short-lived tasks): the last live
+	// task takes the place of the ended one
+	if i := t.liveIdx; i < len(s.live) && s.live[i] == t {
+		last := s.live[len(s.live)-1]
+		s.live[i] = last
+		last.liveIdx = i
+		s.live = s.live[:len(s.live)-1]
 	}
 	s.Emit("task-end", "")
 	next := s.dispatch()
@@ -636,6 +641,12 @@ func (s *Sched) ready(t *Task) {
 func (s *Sched) Go(fn func()) {
 	if s.killing {
 		return
+	}
+	if len(s.live) >= maxLiveTasks {
+		// a program that piles up routines without end: same verdict as
+		// running out of steps (and it keeps every scheduling point cheap)
+		s.budgetHit = true
+		s.overBudget()
 	}
 	t := s.newTask(fn, s.cur.ID)
 	s.Emit("go", fmt.Sprint(t.ID))
